@@ -24,6 +24,44 @@ def fingerprint(fnode) -> str:
 
     def private(x: str) -> bool:
         return x.startswith('_') and not (x.startswith('__') and x.endswith('__'))
+    # locals (parameters, assigned names, loop / comprehension / handler variables) are numbered in order of first
+    # appearance: renaming them does not change the fingerprint
+    bound = set()
+    for x in ast.walk(n):
+        if isinstance(x, ast.arg):
+            bound.add(x.arg)
+        elif isinstance(x, ast.Name) and isinstance(x.ctx, (ast.Store, ast.Del)):
+            bound.add(x.id)
+        elif isinstance(x, ast.ExceptHandler) and x.name:
+            bound.add(x.name)
+    for x in ast.walk(n):
+        if isinstance(x, (ast.Global, ast.Nonlocal)):
+            bound -= set(x.names)
+    order: Dict[str, str] = {}
+
+    class V(ast.NodeVisitor):
+        def visit_arg(self, a):
+            if a.arg in bound:
+                order.setdefault(a.arg, 'v%d' % len(order))
+            a.arg = order.get(a.arg, a.arg)
+            a.annotation = None
+
+        def visit_Name(self, a):
+            if a.id in bound:
+                order.setdefault(a.id, 'v%d' % len(order))
+                a.id = order[a.id]
+
+        def visit_ExceptHandler(self, a):
+            if a.name and a.name in bound:
+                order.setdefault(a.name, 'v%d' % len(order))
+                a.name = order[a.name]
+            self.generic_visit(a)
+
+        def visit_keyword(self, a):
+            self.generic_visit(a)
+    V().visit(n)
+    if hasattr(n, 'returns'):
+        n.returns = None
     for x in ast.walk(n):
         if isinstance(x, ast.Attribute) and private(x.attr):
             x.attr = '_'
